@@ -7,6 +7,7 @@ the reference recursion fed with the same answers, under the loop monitor.
 Part 2 (real detectors): all small curves x 5 detectors x thresholds; termination, range, emptiness rule
 and the self-similarity equation result == {k} U MK(points[:k+1]) U (k+1 + MK(points[k+1:])).
 """
+from fractions import Fraction
 import numpy as np
 
 from mc import core, lib, curves, monitor, choices
@@ -25,10 +26,10 @@ TITLE = 'Recursive multi-knee detection terminates, is well-formed and self-simi
 RULE = ('part 1: cases = complete answer sequences of a scripted detector (all of them below the length bound); part 2: cases = (curve, detector, t1, t2); '
         'non-trivial = at least two knees returned (the recursion really descended)')
 ASSUMPTIONS = ['detector contract: None or an index in [0, len-2]; t2 >= detector minimum (curvature/DFDT/Menger/Kneedle 2, L-method 3)',
-               'gate: endpoint-line SMAPE within 1e-9 of t1 (but not equal) is ambiguous',
+               'gate: t1 inside the enclosure of all floating-point evaluations of the endpoint-line SMAPE (+-1e-9) is ambiguous - the terms of SMAPE are ill-conditioned where the curve and the line are both ~0',
                'self-similarity is differential (the wrapper on the two slices), no hand-written expectation']
-BOUNDS = {'quick': {'scripted': 'all answer sequences for n<=9, t2 in 0..4, 3 gate modes', 'real detectors': 'A n<=4, A12 n=5, A1 n=6,7, C n=4, G12Y013 n=5 re-embedded (tiny/huge units), trace windows web0_reduced w=16 and usr0[::64] w=20; t1 in {0,0.01,0.5,1.5}; t2 in {minimum, default}'},
-          'thorough': {'scripted': 'all answer sequences for n<=11 (t2=0), n<=12 (t2>=1)', 'real detectors': 'A n<=5, G12Y013 n=6, A1 n=7,8, C n=5'}}
+BOUNDS = {'quick': {'scripted': 'all answer sequences for n<=11 (n<=10 with a gate), t2 in 2..4, 3 gate modes', 'real detectors': 'A n<=4, A12 n=5, A1 n=6,7, C n=4, G12Y013 n=5 re-embedded (tiny/huge units), trace windows web0_reduced w=16 and usr0[::64] w=20; t1 in {0,0.01,0.5,1.5}; t2 in {minimum, default}'},
+          'thorough': {'scripted': 'all answer sequences for n<=13 (n<=11 with a gate), t2 in 2..4', 'real detectors': 'A n<=5, G12Y013 n=6, A1 n=7,8, C n=5'}}
 TECHNIQUE = 'stateless choice-point exploration of the multi-knee wrapper with a scripted detector (all answer sequences) plus bounded-exhaustive differential self-similarity on the real detectors'
 LEVEL_TEXT = ('Model checking: (1) every answer sequence of an arbitrary contract-honouring detector up to n=9 (12 thorough) against the reference recursion - this covers the '
               'wrapper\'s control logic for all curves at once; (2) every small curve through the five bundled detectors: termination under the step monitor, range, emptiness and the '
@@ -136,6 +137,47 @@ DETS = {
 T1S = (0.0, 0.01, 0.5, 1.5)
 
 
+_SI = {}
+
+
+def smape_interval(xs, ys):
+    k = (tuple(xs), tuple(ys))
+    if k not in _SI:
+        if len(_SI) > 64:
+            _SI.clear()
+        _SI[k] = _smape_interval(xs, ys)
+    return _SI[k]
+
+
+def _smape_interval(xs, ys):
+    """[lo, hi] enclosing every floating-point evaluation of the endpoint-line SMAPE.  A term
+    2|yh - y| / (|y| + |yh| + 1e-16) is ill-conditioned where y and yh are both (nearly) zero: the rounding error of
+    yh = m x + b, harmless elsewhere, then moves the term anywhere between 0 and 2 (a curve that touches zero at an
+    end point of the section).  The exact line is evaluated in rational arithmetic and every term is bounded over
+    yh +- delta, delta = 16 u (|y0| + |m| (|x0| + |x|) + |y|)."""
+    n = len(xs)
+    if n <= 2:
+        return 1.0, 1.0
+    X = [Fraction(v) for v in xs]
+    Y = [Fraction(v) for v in ys]
+    if X[0] == X[-1]:
+        m, b = Fraction(0), Fraction(0)
+    else:
+        m = (Y[0] - Y[-1]) / (X[0] - X[-1])
+        b = Y[0] - m * X[0]
+    eps = Fraction(1, 10 ** 16)
+    u = Fraction(1, 2 ** 53)
+    lo = hi = Fraction(0)
+    for x, y in zip(X, Y):
+        yh = m * x + b
+        d = 16 * u * (abs(Y[0]) + abs(m) * (abs(X[0]) + abs(x)) + abs(y))
+        cands = [yh - d, yh, yh + d]
+        vals = [2 * abs(c - y) / (abs(y) + abs(c) + eps) for c in cands]
+        lo += Fraction(0) if (yh - d <= y <= yh + d) else min(vals)
+        hi += max(vals)
+    return float(lo / n), float(hi / n)
+
+
 def check_real(det, xs, ys, t1, t2):
     n = len(xs)
     pts = curves.points(xs, ys)
@@ -158,10 +200,12 @@ def check_real(det, xs, ys, t1, t2):
         if got:
             return got, [Failure(fn, 'non-empty-on-a-curve-with-<=t2-points', key, case, 'returned %s' % got, (n, 0))]
         return got, []
+    lo_s, hi_s = smape_interval(xs, ys)
+    w = 1e-9 * max(1.0, abs(t1))
     r = float(lf.smape_points(pts, lf.linear_fit_points(pts))) if n > 2 else 1.0
-    if r != t1 and abs(r - t1) <= 1e-9 * max(1.0, abs(t1)):
-        return got, []                                   # ambiguous gate
-    if r < t1:
+    if (lo_s - w <= t1 <= hi_s + w and not (lo_s == hi_s == t1)) or not (lo_s - w <= r <= hi_s + w):
+        return got, []                                   # ambiguous gate (or the wrapper's SMAPE is off: C16's clause)
+    if hi_s < t1:
         if got:
             return got, [Failure(fn, 'non-empty-although-endpoint-smape<t1', key, case, 'smape=%r t1=%r returned %s' % (r, t1, got), (n, 0))]
         return got, []
@@ -189,15 +233,15 @@ def check_real(det, xs, ys, t1, t2):
 
 def units(tier, seed):
     u = []
-    nmax = 9 if tier == 'quick' else 12
+    nmax = 11 if tier == 'quick' else 13
     for mode in ('open', 'elbow', 'r2gate'):
-        for t2 in (0, 1, 2, 3, 4):
+        # t2 < 2 is outside the quantifier (t2 >= detector minimum): sections of one or two points would be handed to the
+        # detector, and what then happens is not stated (found by a property-preserving rewrite, DESIGN.md 10.6)
+        for t2 in (2, 3, 4):
             for n in range(2, nmax + 1):
-                if tier == 'thorough' and t2 == 0 and n > 11:
+                if mode != 'open' and n > (10 if tier == 'quick' else 11):
                     continue
-                if mode != 'open' and n > (9 if tier == 'quick' else 11):
-                    continue
-                K = 1 if n <= 8 else (8 if n <= 10 else 64)
+                K = 1 if n <= 8 else (8 if n <= 10 else (32 if n <= 11 else 128))
                 for k in range(K):
                     u.append(('scripted', n, mode, t2, k, K))
     if tier == 'quick':
